@@ -23,7 +23,7 @@ import sys
 import time
 
 TRACE_SET = ('openat,open,creat,mkdir,mkdirat,unlink,unlinkat,rmdir,rename,renameat,'
-             'renameat2,getdents64')
+             'renameat2,getdents64,chdir')
 MARK = '/ctmverif_fs_marker'
 PY = '/venv/bin/python'
 VERIF = pathlib.Path(__file__).resolve().parent.parent
@@ -81,6 +81,7 @@ PATTERNS = {
     'rename': re.compile(r'^rename\(' + _STR + r', ' + _STR + r'\)' + _RET),
     'renameat': re.compile(r'^renameat\(' + _FD + r', ' + _STR + r', ' + _FD + r', ' + _STR + r'\)' + _RET),
     'renameat2': re.compile(r'^renameat2\(' + _FD + r', ' + _STR + r', ' + _FD + r', ' + _STR + r', [A-Z_|0-9a-fx]+\)' + _RET),
+    'chdir': re.compile(r'^chdir\(' + _STR + r'\)' + _RET),
     'getdents64': re.compile(r'^getdents64\(' + r'-?\d+(?:<((?:[^>\\]|\\.)*)>)?' + r',\s*.*\)' + _RET),
 }
 
@@ -108,6 +109,11 @@ def parse_log(path, cwd):
     system calls must be understood: an unparsable line is an error (never skipped silently)."""
     pending = {}
     events = []
+    # working directories: the child changes into the run's working directory before a run (job['cwd']) and
+    # back afterwards; processes forked in between inherit it.  A relative path is resolved against the last
+    # chdir of its own process, else against the most recent chdir of any process, else against `cwd`.
+    last_cwd = cwd
+    cwd_of = {}
     with open(path, errors='replace') as f:
         for raw in f:
             m = _LINE.match(raw.rstrip('\n'))
@@ -134,28 +140,33 @@ def parse_log(path, cwd):
             if not mm:
                 raise ParseError(f'cannot parse strace line: {raw!r}')
             g = mm.groups()
+            cw = cwd_of.get(pid, last_cwd)
+            if name == 'chdir':
+                if int(g[1]) == 0:
+                    last_cwd = cwd_of[pid] = _abs(None, g[0], cw)
+                continue
             ev = {'pid': pid, 't': t, 'sys': name}
             if name == 'openat':
-                ev.update(path=_abs(g[0], g[1], cwd), flags=g[2].split('|'), ret=int(g[3]))
+                ev.update(path=_abs(g[0], g[1], cw), flags=g[2].split('|'), ret=int(g[3]))
             elif name == 'open':
-                ev.update(path=_abs(None, g[0], cwd), flags=g[1].split('|'), ret=int(g[2]))
+                ev.update(path=_abs(None, g[0], cw), flags=g[1].split('|'), ret=int(g[2]))
             elif name == 'creat':
-                ev.update(path=_abs(None, g[0], cwd), flags=['O_WRONLY', 'O_CREAT', 'O_TRUNC'], ret=int(g[1]))
+                ev.update(path=_abs(None, g[0], cw), flags=['O_WRONLY', 'O_CREAT', 'O_TRUNC'], ret=int(g[1]))
             elif name == 'mkdir':
-                ev.update(path=_abs(None, g[0], cwd), ret=int(g[1]))
+                ev.update(path=_abs(None, g[0], cw), ret=int(g[1]))
             elif name == 'mkdirat':
-                ev.update(path=_abs(g[0], g[1], cwd), ret=int(g[2]))
+                ev.update(path=_abs(g[0], g[1], cw), ret=int(g[2]))
             elif name == 'unlink':
-                ev.update(path=_abs(None, g[0], cwd), ret=int(g[1]))
+                ev.update(path=_abs(None, g[0], cw), ret=int(g[1]))
             elif name == 'unlinkat':
-                ev.update(path=_abs(g[0], g[1], cwd), ret=int(g[3]))
+                ev.update(path=_abs(g[0], g[1], cw), ret=int(g[3]))
                 ev['sys'] = 'rmdir' if 'AT_REMOVEDIR' in g[2].split('|') else 'unlink'
             elif name == 'rmdir':
-                ev.update(path=_abs(None, g[0], cwd), ret=int(g[1]))
+                ev.update(path=_abs(None, g[0], cw), ret=int(g[1]))
             elif name == 'rename':
-                ev.update(path=_abs(None, g[0], cwd), path2=_abs(None, g[1], cwd), ret=int(g[2]))
+                ev.update(path=_abs(None, g[0], cw), path2=_abs(None, g[1], cw), ret=int(g[2]))
             elif name in ('renameat', 'renameat2'):
-                ev.update(path=_abs(g[0], g[1], cwd), path2=_abs(g[2], g[3], cwd), ret=int(g[4]))
+                ev.update(path=_abs(g[0], g[1], cw), path2=_abs(g[2], g[3], cw), ret=int(g[4]))
                 ev['sys'] = 'rename'
             elif name == 'getdents64':
                 if g[0] is None:
@@ -385,6 +396,8 @@ def result_of(job, rec):
         return {'h5': h5_content(a['out'])}
     if st == 'qmarkers':
         return {'lookup': rec['returned']}
+    if st == 'assign':
+        return {'assignments': rec['returned']}
     raise ValueError(st)
 
 
@@ -419,12 +432,46 @@ def plant_stale(dirs, seed):
                 (d / fn).write_text(STALE_TEXT)
 
 
-def _pre(job):
+def chunk_files(cells, chunk_size):
+    """What the workers of election.run_type_assignment_on_h5ad_cpu leave in the buffer directory of a
+    run over `cells` (the list the stage returned) with row chunks of `chunk_size`:
+    {'<r0>_<r1>_assignment.json': text}.  (`directly_assigned` is added by the stage after the
+    files have been collected, so it is not in them.)"""
+    out = {}
+    for r0 in range(0, len(cells), chunk_size):
+        r1 = min(len(cells), r0 + chunk_size)
+        blob = []
+        for c in cells[r0:r1]:
+            c = json.loads(json.dumps(c))
+            for v in c.values():
+                if isinstance(v, dict):
+                    v.pop('directly_assigned', None)
+            blob.append(c)
+        out[f'{r0}_{r1}_assignment.json'] = json.dumps(blob)
+    return out
+
+
+def _pre(job, returned=None):
     pre = job.get('pre') or {}
     if pre.get('plant'):
         plant_stale(pre['plant']['dirs'], pre['plant']['seed'])
     for p, text in (pre.get('write') or {}).items():
         pathlib.Path(p).write_text(text)
+    for d in pre.get('mkdirs') or []:
+        pathlib.Path(d).mkdir(parents=True, exist_ok=True)
+    sc = pre.get('stale_chunks')
+    if sc:
+        # the per-chunk files an earlier run (label sc['from'], executed by this child) would have left
+        # behind had it been killed before collecting them, in every given buffer directory
+        cells = (returned or {}).get(sc['from'])
+        if cells is None:
+            raise RuntimeError(f"stale_chunks: no returned value of run {sc['from']}")
+        files = chunk_files(cells, int(sc['chunk_size']))
+        for d in sc['dirs']:
+            d = pathlib.Path(d)
+            d.mkdir(parents=True, exist_ok=True)
+            for fn, text in files.items():
+                (d / fn).write_text(text)
 
 
 # ------------------------------------------------------------------ child side
@@ -443,6 +490,9 @@ def _install_fault(fault):
 
     def worker(*args, **kwargs):
         if int(kwargs.get('r0', -1)) == int(fault['r0']):
+            # 'delay': the worker dies late (its siblings have finished by then), so that whether orphaned
+            # workers are still writing when the stage raises is not left to a race
+            time.sleep(float(fault.get('delay', 0)))
             if fault['how'] == 'exit':
                 os._exit(int(fault.get('code', 3)))
             raise RuntimeError('injected worker failure')
@@ -501,6 +551,34 @@ def _run_stage(job):
                                                          behemoth_cutoff=a['behemoth_cutoff'],
                                                          tmp_dir=a['tmp_dir'])
         return {k: v for k, v in lookup.items() if k not in ('metadata', 'log')}
+    if st == 'assign':
+        # the stage run_mapping calls (cli/from_specified_markers.py:_run_mapping), called directly
+        import h5py
+        import numpy as np
+        from cell_type_mapper.taxonomy.taxonomy_tree import TaxonomyTree
+        from cell_type_mapper.type_assignment.election_runner import run_type_assignment_on_h5ad
+        from cell_type_mapper.utils.utils import clean_for_json
+        with h5py.File(a['stats'], 'r') as f:
+            tree = TaxonomyTree.from_str(serialized_dict=f['taxonomy_tree'][()].decode('utf-8'))
+        lookup = {level: a['bootstrap_factor'] for level in tree.hierarchy[:-1]}
+        lookup['None'] = a['bootstrap_factor']
+        result = run_type_assignment_on_h5ad(
+            query_h5ad_path=pathlib.Path(a['query']),
+            precomputed_stats_path=pathlib.Path(a['stats']),
+            marker_gene_cache_path=pathlib.Path(a['marker_cache']),
+            taxonomy_tree=tree,
+            n_processors=a['n_processors'],
+            chunk_size=a['chunk_size'],
+            bootstrap_factor_lookup=lookup,
+            bootstrap_iteration=a['bootstrap_iteration'],
+            rng=np.random.default_rng(a['rng_seed']),
+            n_assignments=a['n_assignments'],
+            normalization=a['normalization'],
+            tmp_dir=a['tmp_dir'],
+            log=None,
+            max_gb=1,
+            results_output_path=a['results_output_path'])
+        return json.loads(json.dumps(clean_for_json(result)))
     raise ValueError(st)
 
 
@@ -514,9 +592,23 @@ def child_main(jobfile):
     import cell_type_mapper.diff_exp.precompute_from_anndata  # noqa: F401
     import cell_type_mapper.diff_exp.markers  # noqa: F401
     import cell_type_mapper.type_assignment.marker_cache_v2  # noqa: F401
+    import cell_type_mapper.type_assignment.election_runner  # noqa: F401
+    import tempfile
+    returned = {}
+    home = os.getcwd()
     for job in spec['jobs']:
-        _pre(job)
+        _pre(job, returned)
         rec = {'label': job['label'], 'ok': True, 'error': None}
+        # what `TMPDIR=<dir> python ...` started in directory <cwd> does: the system temporary directory
+        # and the working directory of this run (both inside the sandbox, so that they are observed)
+        old_tmp = (os.environ.get('TMPDIR'), tempfile.tempdir)
+        if job.get('systmp'):
+            os.environ['TMPDIR'] = job['systmp']
+            tempfile.tempdir = None
+            if tempfile.gettempdir() != job['systmp']:
+                raise RuntimeError(f"could not make {job['systmp']} the system temporary directory")
+        if job.get('cwd'):
+            os.chdir(job['cwd'])
         rec['before'] = snapshot(job['roots'])
         undo = _install_fault(job['fault']) if job.get('fault') else None
         buf = io.StringIO()
@@ -546,6 +638,15 @@ def child_main(jobfile):
         _mark('settled', job['label'])
         if undo:
             undo()
+        if job.get('cwd'):
+            os.chdir(home)
+        if job.get('systmp'):
+            if old_tmp[0] is None:
+                os.environ.pop('TMPDIR', None)
+            else:
+                os.environ['TMPDIR'] = old_tmp[0]
+            tempfile.tempdir = old_tmp[1]
+        returned[job['label']] = ret
         rec['after'] = snapshot(job['roots'])
         rec['returned'] = ret
         try:
